@@ -50,7 +50,11 @@ def gen_case(rnd, moduli):
     if rnd.random() < 0.4:
         # copies: Array(row) of a row read with a secret index (or Array(a) of a 1-D array), taken twice; a write into one copy
         # must not show through the other copy, the row or the original array
-        if two_d:
+        if rnd.random() < 0.35:
+            # two Arrays built from one and the same plain list object
+            ln = rnd.choice([2, 3])
+            src = reg(); prog.append(["list", src, [elem() for _ in range(ln)]])
+        elif two_d:
             src = reg(); prog.append(["arrget", src, a, [secret(rnd.randrange(0, shape[0]))]])
             ln = shape[1]
         else:
@@ -88,6 +92,7 @@ def twin(case):
         elif op == "const": regs[s[1]] = s[2][1]
         elif op == "arrnew": regs[s[1]] = [regs[q] for q in s[2]]
         elif op == "arrcopy": regs[s[1]] = list(regs[s[2]])
+        elif op == "list": regs[s[1]] = [regs[q] for q in s[2]]
         elif op == "arrget":
             v = regs[s[2]]
             for q in s[3]:
